@@ -127,6 +127,35 @@ func drawValidCertRef(t *rapid.T, p Prof) string {
 	return s
 }
 
+// multiByteDigitVariants: strings of the SAME BYTE LENGTH as base in which
+// runs of ASCII digits are replaced by non-ASCII decimal digits (Arabic-Indic,
+// 2 bytes each; fullwidth, 3 bytes each): invalid, but they pass any check
+// made of len() plus a Unicode-aware digit test.
+func multiByteDigitVariants(base string) []string {
+	var r []string
+	isD := func(b byte) bool { return b >= '0' && b <= '9' }
+	for i := 0; i+1 < len(base); i++ {
+		if isD(base[i]) && isD(base[i+1]) {
+			r = append(r, base[:i]+"٣"+base[i+2:])
+		}
+		if i+2 < len(base) && isD(base[i]) && isD(base[i+1]) && isD(base[i+2]) {
+			r = append(r, base[:i]+"１"+base[i+3:])
+		}
+	}
+	// as many replacements as fit
+	all := []byte{}
+	for i := 0; i < len(base); {
+		if i+1 < len(base) && isD(base[i]) && isD(base[i+1]) {
+			all = append(all, "٣"...)
+			i += 2
+		} else {
+			all = append(all, base[i])
+			i++
+		}
+	}
+	return append(r, string(all))
+}
+
 // drawInvalidCertRef: a single edit of a valid reference (or a far value).
 func drawInvalidCertRef(t *rapid.T, p Prof) string {
 	for try := 0; ; try++ {
@@ -135,7 +164,10 @@ func drawInvalidCertRef(t *rapid.T, p Prof) string {
 			base += "-" + drawDigits(t, 5, "cert.ext")
 		}
 		var s string
-		switch rapid.IntRange(0, 4).Draw(t, "cert.edit") {
+		switch rapid.IntRange(0, 5).Draw(t, "cert.edit") {
+		case 5: // same byte length, non-ASCII digits
+			vs := multiByteDigitVariants(base)
+			s = vs[rapid.IntRange(0, len(vs)-1).Draw(t, "cert.mb")]
 		case 0: // delete
 			i := rapid.IntRange(0, len(base)-1).Draw(t, "cert.pos")
 			s = base[:i] + base[i+1:]
@@ -272,12 +304,12 @@ func deviate(t *rapid.T, m *MClaims, c Claim, literalOnly bool) {
 	switch c {
 	case CProfile:
 		if p == P1 {
-			m.Profile = sp(rapid.SampledFrom([]string{P2Name, "", "PSA_IOT_PROFILE_2", "psa_iot_profile_1", "http://example.com/x"}).Draw(t, "profile.bad"))
+			m.Profile = sp(rapid.SampledFrom([]string{P2Name, "", "PSA_IOT_PROFILE_2", "psa_iot_profile_1", "http://example.com/x", "PSA_IOT_PROFILE_1 ", " PSA_IOT_PROFILE_1", "PSA_IOT_PROFILE_1\x00"}).Draw(t, "profile.bad"))
 		} else {
 			if genBool.Draw(t, "profile.absent") {
 				m.Profile = nil
 			} else {
-				m.Profile = sp(rapid.SampledFrom([]string{"http://example.com/other", "http://arm.com/psa/2.0.1", "1.2.3.4", "http://arm.com/psa/2.0.0/"}).Draw(t, "profile.bad"))
+				m.Profile = sp(rapid.SampledFrom([]string{"http://example.com/other", "http://arm.com/psa/2.0.1", "1.2.3.4", "http://arm.com/psa/2.0.0/", "HTTP://arm.com/psa/2.0.0", "Http://arm.com/psa/2.0.0", "http://arm.com/psa/2.0.0#", "http://arm.com/psa/2.0.0?", "http://ARM.com/psa/2.0.0", "http://arm.com:80/psa/2.0.0", "http://arm.com/psa/2.0.0 ", "http://arm.com/psa/2%2E0.0"}).Draw(t, "profile.bad"))
 			}
 		}
 	case CClientID:
